@@ -143,6 +143,13 @@ JobEndClauses(o, a, c, hh) ==
           IN (IF declined # openB THEN {"C19.decline.prs"} ELSE {})
              \cup (IF gone # {r.n : r \in WRefs(b, p)} THEN {"C19.decline.refs"} ELSE {})
         ELSE {})
+  \* a declined pull request that was evaluated (and is not held back otherwise) keeps no integration data
+  \cup (IF kind = "EvalPR" /\ ~ faulted /\ P # {} /\ st \in {"PullRequestDeclined", "NothingToDo"} THEN
+          LET p == CHOOSE x \in P : TRUE
+          IN IF HasPr(b, p.id) /\ PrById(b, p.id).state = "DECLINED" /\ p.handled /\ ~ p.wait /\ ~ UnmetDep(o, p)
+                /\ (WRefs(o, p) # {} \/ \E q \in Children(o, p) : q.state = "OPEN" /\ HasRef(b, q.src))
+             THEN {"C19.decline.leftover"} ELSE {}
+        ELSE {})
   \cup (IF ~ faulted /\ \E p \in UserPrs(o) : HasPr(b, p.id) /\ PrById(b, p.id).state = "OPEN"
                                    /\ p.state = "MERGED" /\ WRefs(o, p) # {}
         THEN {"C19.merge.refs"} ELSE {})
